@@ -95,6 +95,14 @@ def gen_run(rng, rid, big=False, extreme=False):
         for p in base: pts.append(p); pts.append([v + rng.choice([1e-6, -1e-6, 3e-7, 1e-5]) * rng.gauss(0, 1) for v in p])
         c["x"] = pts[:n]; c["y"] = [i % 2 for i in range(n)]
         c["Cneg"] = c["Cpos"] = rng.choice([1.0, 10.0, 100.0])
+    if rng.random() < 0.3:
+        # the same problem through GeneralQuadraticProblem (class behind weighted C-SVMs / ranking SVMs; unit weights): its own
+        # flipCoordinates must keep linear term, boxes, DIAGONAL and permutation together -> un-normalised kernel (non-constant
+        # diagonal), shrinking on, enough iterations for several shrink events
+        c["matrix"] += "g"
+        if rng.random() < 0.7:
+            c["kernel"] = "lin"; c["gamma"] = 0.0; c["shrink"] = 1; c["maxiter"] = 400
+            c["x"] = [[v * rng.choice([1, 1, 2, 3]) for v in p] for p in c["x"]]
     c["stream"] = "main"
     return c
 
@@ -174,7 +182,7 @@ def indep_kernel(c):
         for j in range(n):
             if c["kernel"] == "lin": v = math.fsum(a * b for a, b in zip(x[i], x[j]))
             else: v = math.exp(-c["gamma"] * math.fsum((a - b) * (a - b) for a, b in zip(x[i], x[j])))
-            K[i][j] = f32(v) if c["matrix"] == "cf" else v
+            K[i][j] = f32(v) if c["matrix"].startswith("cf") else v
     return K
 
 # ------------------------------------------------------------------------------------------------
@@ -210,7 +218,7 @@ def monitor(c, run, K, stop_first=True):
     for i in range(n):
         for j in range(n):
             a, b = run["K"][i * n + j], K[i][j]
-            rel = 3e-7 if c["matrix"] == "cf" else 1e-12
+            rel = 3e-7 if c["matrix"].startswith("cf") else 1e-12
             # an inner product with cancellation is only accurate relative to |x||z| = sqrt(K_ii K_jj), not to its own size
             cs = math.sqrt(abs(K[i][i] * K[j][j])) if c["kernel"] == "lin" else 0.0
             if abs(a - b) > rel * max(abs(a), abs(b)) + 16 * c["d"] * EPSM * cs + 1e-300:
@@ -244,7 +252,7 @@ def monitor(c, run, K, stop_first=True):
             amax = max(amax, max(abs(v) for v in s.alpha))
             asum = sum(abs(v) for v in s.alpha)
             tol = 32 * EPSM * (nsmo + 8) * scale + 2 * kd * asum
-            if c["matrix"] == "cf" and c["warm"]: tol += 2.0 ** -22 * scale   # setInitialSolution multiplies in float for a float cache
+            if c["matrix"].startswith("cf") and c["warm"]: tol += 2.0 ** -22 * scale   # setInitialSolution multiplies in float for a float cache
             for a in range(s.active):
                 if not abs(s.grad[a] - g[a]) <= tol:
                     msgs.append(("grad", "gradient[%d]=%r but linear - K alpha = %r (|diff| %.3g > tol %.3g), active=%d" % (a, s.grad[a], g[a], abs(s.grad[a] - g[a]), tol, s.active))); break
@@ -260,7 +268,7 @@ def monitor(c, run, K, stop_first=True):
             if c["kind"] == "svm" and not abs(sm - sum0) <= 8 * EPSM * (nsmo + 4) * n * amax:
                 msgs.append(("sum", "sum(alpha)=%r differs from the initial %r" % (sm, sum0)))
             otol = 64 * EPSM * (nsmo + 8) * max(1.0, scale * asum) + 4 * kd * asum * asum
-            if c["matrix"] == "cf" and c["warm"]: otol += 2.0 ** -22 * scale * asum
+            if c["matrix"].startswith("cf") and c["warm"]: otol += 2.0 ** -22 * scale * asum
             if s.active == n and not abs(s.fval - obj) <= otol:
                 msgs.append(("fval", "functionValue()=%r but recomputed objective %r" % (s.fval, obj)))
             if prev is not None:
